@@ -281,7 +281,11 @@ def judge(chk, lib, pop, m, text, ok_ids=None):
         accepted_exit = (r1.rc == 0)
         accepted_sev = (sev is None or sev >= SEV_USERMSG)
         if accepted_exit or accepted_sev:
-            found.append(('accepted|%s|%s' % (m.key_shape(), 'reported clean' if (accepted_exit and accepted_sev) else
+            in_cx = 'in complex part' in m.kind
+            # open finding: STEPcomplex::STEPread drops the severities of its parts (repairing it makes shipped ap214e3 test files fail),
+            # so EVERY violation inside a part is reported clean - one root cause, one key
+            found.append(('accepted|%s|%s' % ('any violation inside a part of a complex instance' if in_cx else m.key_shape(),
+                                              'reported clean' if (accepted_exit and accepted_sev) else
                                               ('exit 0 but severity worse than USERMSG' if accepted_exit else 'exit non-zero but severity >= USERMSG')),
                           '%s (%s position): reader reports the file as clean (p21read exit %s, severity %s)' % (m.what, m.pos, r1.rc, sev), files))
         # confinement
